@@ -11,7 +11,7 @@ import "testing"
 func c01Params() GenParams {
 	return GenParams{SnapEmptyPct: 15, RecreatePct: 25, MinOps: 5, MaxOps: 60, WKV: 3, WCreate: 3, WDrop: 2, WAdd: 10, WBatch: 3, WImport: 1, WDel: 5, WMeta: 4, WReinforce: 2, WEvolve: 2,
 		WLink: 5, WUnlink: 4, WConfig: 1, WAutoLinks: 1, WSnapshot: 4, WRewrite: 4, WCompress: 2, WMaint: 3, WFlush: 1, WRestart: 5,
-		InvalidPct: 5, ForceRestart: true, AllowInt8: true, AllowMemory: true, AllowAutoLink: true, AllowText: true, SmallEfC: true, BigBatch: true, NullMeta: true}
+		InvalidPct: 5, ForceRestart: true, AllowInt8: true, AllowMemory: true, AllowAutoLink: true, AllowText: true, SmallEfC: true, BigBatch: true, NullMeta: true, ReplacePct: 25}
 }
 
 func TestVerif_C01_restart(t *testing.T) {
